@@ -1,7 +1,7 @@
 SPECIFICATION Spec
 CONSTANTS
   Ks = {0, 1, 2}
-  ScriptIds = {1, 2, 3, 4, 5, 6, 7}
+  ScriptIds = {1, 2, 3, 4, 5, 6, 7, 8, 9, 10}
   Want = 2
   Cancels = {FALSE}
   Lates = {FALSE, TRUE}
